@@ -752,7 +752,15 @@ func runC17(c *core.Ctx) {
 				c.Max("short_scan_ms", int(res.elapsed/time.Millisecond))
 				if res.elapsed > 20*time.Second {
 					c.Count("short_scans_over_20s", 1)
-					c.Note("slow scan %s: %d ms, %d requests, %d events; %s", cid, res.elapsed.Milliseconds(), len(res.reqs), len(res.events), cfg.String())
+					var at []int64
+					for _, q := range res.reqs[:min(len(res.reqs), 40)] {
+						at = append(at, q.atMs)
+					}
+					ft, lt := int64(-1), int64(-1)
+					if len(res.events) > 0 {
+						ft, lt = res.events[0].t/1e6, res.events[len(res.events)-1].t/1e6
+					}
+					c.Note("slow scan %s: %d ms, %d requests (arrival ms %v), %d events (first at %d ms, last at %d ms); %s", cid, res.elapsed.Milliseconds(), len(res.reqs), at, len(res.events), ft, lt, cfg.String())
 				}
 			}
 			if c.WantSample() && rep == 0 && len(res.events) > 0 {
